@@ -78,7 +78,8 @@ extern "C" void h_kd_init_explicit(void) {
 #endif
   int32_t id = ATT_ID;   // concrete: a symbolic id makes the encoder's data-type dispatch symbolic as well
   verif_assume(verif_opt[id].origin_set && verif_opt[id].range_set);      // explicit quantization requested for THIS attribute
-  verif_assume(verif_opt[id].range > 0.f);                                // any positive range, also below 1
+  verif_assume(verif_opt[id].range > 0.f && verif_opt[id].range < 3e38f);  // any finite positive range, also below 1
+  verif_assume(verif_opt[id].origin[0] > -3e38f && verif_opt[id].origin[0] < 3e38f);   // (stricter validation of non-finite values would be legitimate)
   KdTreeAttributesEncoder enc; enc.point_cloud_encoder_ = &pce; enc.point_cloud_ = &pc;
   verif_adopt(enc.point_attribute_ids_, &id, 1, 1);
   AttributeQuantizationTransform tr_s[1]; std::unique_ptr<PointAttribute> port_s[1];
